@@ -712,8 +712,8 @@ thread_local! {
     static LAST_INTERRUPT_CATCHER: RefCell<String> = const { RefCell::new(String::new()) };
 }
 
-/// The caller of the last catch/3 goal that received the interrupt ball while the catch trace
-/// was on (empty if none did); reading clears it. A catch/3 that re-throws is followed by the
+/// The caller of the last catch/3 goal that received the interrupt ball (or a resource error)
+/// while the catch trace was on (empty if none did); reading clears it. A catch/3 that re-throws is followed by the
 /// next one, so what is left at the end is the goal that kept the ball.
 pub fn take_last_interrupt_catcher() -> String {
     LAST_INTERRUPT_CATCHER.with(|t| std::mem::take(&mut *t.borrow_mut()))
@@ -762,9 +762,11 @@ pub(crate) fn on_get_ball(machine: &Machine) {
     let cp = st.stack.index_and_frame(st.e).prelude.cp;
     let who = predicate_at(machine, cp);
 
+    // the balls the fault injectors raise: the interrupt and error(resource_error(memory), _)
     let interrupt = atom_as_cell!(atom!("$interrupt_thrown"));
+    let resource = atom_as_cell!(atom!("resource_error"), 1);
 
-    if (0..st.ball.stub.cell_len()).any(|i| st.ball.stub[i] == interrupt) {
+    if (0..st.ball.stub.cell_len()).any(|i| st.ball.stub[i] == interrupt || st.ball.stub[i] == resource) {
         LAST_INTERRUPT_CATCHER.with(|t| *t.borrow_mut() = who.clone());
     }
 
